@@ -43,16 +43,16 @@ def items(ctx):
         for m in ("logistic", "gaussian", "exponential"):
             calls.append({"kind": "squash", "method": m})
             calls.append({"kind": "squash", "method": m, "r": rng.choice([[1, 1], [2, 1], [1, 2]]), "base": 2,
-                          "x0": rng.choice([None, [1, 1], [2, 1]])})
+                          "x0": rng.choice([None, [0, 1], [1, 1], [2, 1]])})
             calls.append({"kind": "squash", "method": m, "r": [1, 1]})
             calls.append({"kind": "squash", "method": m, "keep_sign": True})
             # keep_sign together with an explicit base / midpoint (the zero offset is computed in that base)
             calls.append({"kind": "squash", "method": m, "keep_sign": True, "base": rng.choice([2, 10]),
-                          "r": rng.choice([[1, 1], [2, 1]]), "x0": rng.choice([None, [1, 1], [2, 1]])})
+                          "r": rng.choice([[1, 1], [2, 1]]), "x0": rng.choice([None, [0, 1], [1, 1], [2, 1]])})
             # ... and on signed data (the array shifted down): still non-decreasing, signs kept
             calls.append({"kind": "squash", "method": m, "keep_sign": True, "shift": rng.choice([1, 2]),
                           "base": rng.choice([None, 2, 10]), "r": rng.choice([[1, 1], [2, 1]]),
-                          "x0": rng.choice([[1, 1], [2, 1]])})
+                          "x0": rng.choice([[0, 1], [1, 1], [2, 1]])})
             cq = rng.choice([0.8, 0.9, [0.75, 0.9]])
             qv = cq[0] if isinstance(cq, list) else cq
             import numpy as _np
